@@ -57,7 +57,7 @@ type W struct {
 
 // oracle ownership: which property an oracle's verdict belongs to.
 var oracleOwner = map[string][]string{
-	"state":            {"C01", "C12", "C16", "C10", "C15", "C11", "C14", "C07"},
+	"state":            {"C01", "C12", "C16", "C10", "C15", "C11", "C14"},
 	"op-result":        {"C01", "C12", "C16", "C10", "C15"},
 	"read":             {"C12"},
 	"frame":            {"C12", "C10"},
@@ -1228,6 +1228,9 @@ func (w *W) opRemove() string {
 			if len(cands) > 0 {
 				base := cands[t.Choose(len(cands), "remove-list")]
 				l, _ := h.M.Lookup(base)
+				if l == nil || len(l.A) < 2 {
+					continue
+				}
 				segs = append(append([]model.Seg{}, base...), model.I(t.Choose(len(l.A)-1, "remove-idx")))
 			}
 		}
